@@ -550,11 +550,11 @@ func (j *judge) run() {
 				j.count("cap128_disconnect_seen")
 			}
 			if !justified {
-				k := "early-termination:"
+				k := "early-termination:" + methodClass(q.method)
 				if s.reply == rDisconnect {
-					k = "disconnect-too-early:"
+					k = "disconnect-too-early"
 				}
-				j.alarmf("C33", k+shortClass(e.class), "step %d: %s; MaxAuthTries=%d failures in [%d,%d] requests=%d", i, s, c.maxAuthTries, st.fmin, st.fmax, st.nreq)
+				j.alarmf("C33", k, "step %d: %s; MaxAuthTries=%d failures in [%d,%d] requests=%d", i, s, c.maxAuthTries, st.fmin, st.fmax, st.nreq)
 				if e.allowSuccess && !e.allowFail {
 					j.alarmf("C32", "completeness:satisfying-request-terminated:"+shortClass(e.class), "step %d: %s; %s", i, s, e.why)
 				}
@@ -598,6 +598,14 @@ func (j *judge) refused(e expect) {
 	if e.class == "none:after-partial" {
 		j.count("none_after_partial_refused")
 	}
+}
+
+func methodClass(m string) string {
+	switch m {
+	case "none", "password", "publickey", "keyboard-interactive":
+		return m
+	}
+	return "unknown-method"
 }
 
 func shortClass(c string) string {
